@@ -319,3 +319,61 @@ Example C04_concrete_measurement :
   /\ c04_meas_nz_case true [0; 1; 2] [1; 1] 0 (ex_dd, None, Some ex_rd, None) None None
                       [Some (1 # 2); Some (-(1 # 3))] [] = 1%nat.
 Proof. vm_compute. repeat split; reflexivity. Qed.
+
+(* weights that are not positive: a total weight is the sum of the weight column, whatever it holds.
+   Objects masked with weight 0 weigh nothing in every cell (masking = removing from the total), *)
+Theorem C04_masked_objects_weigh_nothing : forall right binned lo hi l,
+  cell_weight right binned lo hi (weighted l) == cell_weight right binned lo hi l.
+Proof. exact masked_objects_weigh_nothing. Qed.
+Print Assumptions C04_masked_objects_weigh_nothing.
+
+(* a patch whose weights cancel in a bin leaves the total of the other patches, *)
+Theorem C04_cancelling_cell_leaves_total : forall right binned lo hi (l : list cobj) (others : list (list cobj)),
+  cell_weight right binned lo hi l == 0 ->
+  cell_weight right binned lo hi (concat (l :: others)) == cell_weight right binned lo hi (concat others).
+Proof. exact cancelling_cell_leaves_total. Qed.
+Print Assumptions C04_cancelling_cell_leaves_total.
+
+(* and the quantifier over all catalogs says more than positive weights do: an implementation that takes
+   "the sum of weights or else the number of objects" as the total weight of a cell is indistinguishable
+   on every catalog without a populated weightless cell - every catalog of positive weights is one - *)
+Theorem C04_or_count_agrees_weighted : forall right edges m,
+  no_weightless_cell right edges (mc_s1 m) -> no_weightless_cell right edges (mc_s2 m) ->
+  meas_pc_or right edges m = meas_pc right edges m.
+Proof. exact orcount_agrees_weighted. Qed.
+Print Assumptions C04_or_count_agrees_weighted.
+
+Theorem C04_positive_weights_no_weightless_cell : forall right edges s,
+  (forall l o, In l (sd_patches s) -> In o l -> 0 < snd o) -> no_weightless_cell right edges s.
+Proof. exact positive_weights_no_weightless_cell. Qed.
+Print Assumptions C04_positive_weights_no_weightless_cell.
+
+(* and is not the documented estimator once objects are masked with weight 0 or weights cancel *)
+Theorem C04_or_count_refuted : exists right edges dd rd,
+  side_weights right edges (mc_s1 dd) = [[2; 0; 1]; [1; 2; 0]]
+  /\ map (map Qred) (side_weights_or right edges (mc_s1 dd)) = [[2; 2; 1]; [1; 2; 3]]
+  /\ res_values (corr_data_doc (meas_pc right edges dd) None (Some (meas_pc right edges rd)) None) = [-(1 # 4); 1 # 6]
+  /\ res_values (corr_data (meas_pc right edges dd) None (Some (meas_pc right edges rd)) None) = [-(1 # 4); 1 # 6]
+  /\ res_values (corr_data (meas_pc_or right edges dd) None (Some (meas_pc_or right edges rd)) None) = [-(11 # 20); -(5 # 12)].
+Proof. exact orcount_refuted. Qed.
+Print Assumptions C04_or_count_refuted.
+
+Example C04_concrete_weights :
+  (* the catalogs of C04_or_count_refuted: DD/RD - 1 = [-1/4; 1/6] is accepted whatever the CorrFunc stores; the
+     value normalised with stored weights that count the weightless cells by their objects is reported with the
+     diagnosis; a reference sample whose second bin weighs nothing in total leaves that bin undefined (anything is
+     accepted there) while the first bin is still compared *)
+  let ok := Some ([Some (-(1 # 4)); Some (1 # 6)], [[Some (-(1 # 3)); Some (1 # 2)]; [Some 0; Some (1 # 2)]; [Some (-(1 # 3)); Some (-(1 # 6))]]) in
+  let bad := Some ([Some (-(11 # 20)); Some (-(5 # 12))], [[Some (-(7 # 9)); Some (-(2 # 5))]; [Some 0; Some (-(5 # 8))]; [Some (-(2 # 3)); Some (-(1 # 6))]]) in
+  let st f := f true [0; 1; 2] in
+  let dead := {| sd_binned := true; sd_patches := [[(1 # 2, 2); (3 # 2, 1)]; [(1 # 2, 1); (3 # 2, 0)]; [(1 # 2, 1); (3 # 2, -(1))]] |} in
+  let dd_dead := {| mc_auto := false; mc_counts := mc_counts exw_dd; mc_s1 := dead; mc_s2 := ex_unk |} in
+  c04_meas_case true [0; 1; 2] 3 exw_dd None (Some ex_rd) None (st meas_pc exw_dd) None (Some (st meas_pc ex_rd)) None ok = 0%nat
+  /\ c04_meas_case true [0; 1; 2] 3 exw_dd None (Some ex_rd) None (st meas_pc_or exw_dd) None (Some (st meas_pc_or ex_rd)) None ok = 0%nat
+  /\ c04_meas_case true [0; 1; 2] 3 exw_dd None (Some ex_rd) None (st meas_pc_or exw_dd) None (Some (st meas_pc_or ex_rd)) None bad = 39%nat
+  /\ map (fun r => snd (fst r)) (corr_data_doc (st meas_pc dd_dead) None (Some (st meas_pc ex_rd)) None) = [true; false]
+  /\ c04_meas_case true [0; 1; 2] 3 dd_dead None (Some ex_rd) None (st meas_pc dd_dead) None (Some (st meas_pc ex_rd)) None
+       (Some ([Some (-(7 # 16)); Some 5], [[Some (-(2 # 3)); Some (-(4))]; [Some 0; None]; [Some (-(5 # 9)); Some (3 # 2)]])) = 0%nat
+  /\ c04_meas_case true [0; 1; 2] 3 dd_dead None (Some ex_rd) None (st meas_pc dd_dead) None (Some (st meas_pc ex_rd)) None
+       (Some ([Some (-(1 # 4)); None], [[Some (-(2 # 3)); Some (-(4))]; [Some 0; None]; [Some (-(5 # 9)); Some (3 # 2)]])) = 3%nat.
+Proof. vm_compute. repeat split; reflexivity. Qed.
